@@ -30,8 +30,16 @@ def sh(cmd, timeout, cwd=None, env=None):
 
 
 class Lock:
+    """flock-based lock.  The global lock (name None) only guards the short dependency phase
+    (_CoqProject/Makefile/.Makefile.d); long proof builds run under a per-property lock."""
+
+    def __init__(self, name=None):
+        self.name = name
+
     def __enter__(self):
-        self.f = open(os.path.join(VERIF, '.build.lock'), 'w')
+        fn = '.build.lock' if self.name is None else os.path.join('build', '.lock.' + self.name)
+        os.makedirs(os.path.join(VERIF, 'build'), exist_ok=True)
+        self.f = open(os.path.join(VERIF, fn), 'w')
         fcntl.flock(self.f, fcntl.LOCK_EX)
         return self
 
@@ -104,6 +112,9 @@ def locate_error(log):
 def make(targets, timeout=1500, jobs=8):
     with Lock():
         ensure_makefile()
+        sh('make .Makefile.d', 300, cwd=COQ)
+    name = os.path.basename(targets[0]).split('.')[0].split('_')[0] if targets else 'misc'
+    with Lock(name):
         return sh('make -j%d %s' % (jobs, ' '.join(targets)), timeout, cwd=COQ)
 
 
@@ -210,7 +221,7 @@ def build_runner(pid, timeout=600):
     rc, out, _ = make(['Extract/%s.vo' % pid], timeout=timeout)
     if rc != 0:
         return None, {'kind': 'model-build-failed', **(locate_error(out) or {'message': out[-800:]})}
-    with Lock():
+    with Lock(pid):
         for ext in ('.ml', '.mli'):
             with open(os.path.join(COQ, pid + '_model' + ext)) as f:
                 write_if_changed(os.path.join(out_dir, 'model' + ext), f.read())
